@@ -362,6 +362,24 @@ def block_alignment_rule(repo: Repo, rep: Report, rid: str) -> None:
     if not rel:
         rep.ok(rid, f"{info.key}:block-relative padding", "no block-relative padding is computed any more", info.loc(), nontrivial=False)
         return
+    # block-relative padding is only for fields without a recorded offset: a field with an offset takes its gap from the layout calculation
+    pm_info = parent_map(info.node)
+    for x in rel:
+        conj: list[str] = []
+        child, p_ = x, pm_info.get(x)
+        while p_ is not None and p_ is not info.node:
+            if isinstance(p_, ast.BoolOp) and isinstance(p_.op, ast.And):
+                conj += [norm(v) for v in p_.values if v is not child and not any(child is y for y in ast.walk(v))]
+            if isinstance(p_, ast.If) and (any(child is y for y in p_.body) or any(any(child is z for z in ast.walk(y)) for y in p_.body) or child is p_.test
+                                            or any(child is z for z in ast.walk(p_.test))):
+                t_ = p_.test
+                conj += [norm(v) for v in (t_.values if isinstance(t_, ast.BoolOp) and isinstance(t_.op, ast.And) else [t_])]
+            child, p_ = p_, pm_info.get(p_)
+        rep.check("field.offset is None" in conj, rid, f"{info.key}:block-relative padding only without offset",
+                  "the block-relative padding applies to fields without a recorded offset only",
+                  f"'{short(x, 60)}' pads by the block-relative position also for fields that have a layout offset (conditions: {conj[:4]}): a block only starts "
+                  "aligned for its first field, so behind a nested structure / bit-field a later, more strictly aligned member is read from another offset "
+                  "than the layout gives it (struct { struct { uint32 x; } hdr; uint32 a; uint64 b; } reads b at 12 instead of 8)", info.loc(x))
     g = CFG(gf.node)
     appends = [n for n in g.nodes if n.kind == "stmt" and any(isinstance(c, ast.Call) and call_name(c) == "append" and norm(c.func.value) == "current_block" for c in ast.walk(n.ast))]
     guards = [n for n in g.nodes if n.kind == "if" and "alignment" in norm(n.ast.test) and "current_block" in norm(n.ast.test) and "field.offset is None" in norm(n.ast.test)
@@ -568,5 +586,6 @@ def run(repo: Repo, rep: Report, tier: str) -> None:
 
     generated_globals_rule(repo, rep, "C03.R20")
     delegation_rule(repo, rep, "C03.R21")
+    from .c08 import template_read_check_rule
 
-
+    template_read_check_rule(repo, rep, "C03.R22")
